@@ -1156,6 +1156,50 @@ def r6_empty_population(program, rep):
                             "(rand.place was expected to have one)")
 
 
+def r1_chip_order(program, rep):
+    """The sequential placer takes chips from a caller-supplied order that
+    may name dead or non-existent chips (its documentation allows that):
+    every chip it tries must be one of the machine's, or machine[chip] /
+    the subtraction raises IndexError / KeyError - not a documented error."""
+    fn = program.get(PLACERS["sequential"])
+    T = Terms(fn)
+    ps = formals(fn)
+    if "chip_order" not in ps:
+        raise AnalysisError("sequential.place no longer takes chip_order")
+    ORDER, MACH = ("param", "chip_order"), ("param", ps[2])
+    cyc = [c for c in calls_in(fn, "cycle") if len(c.args) == 1]
+    if len(cyc) != 1:
+        raise AnalysisError("sequential.place: the cyclic chip iterator was "
+                            "not found in the form analysed")
+    H = T.under((is_none(ORDER), False))
+    n = H.cfg.node_containing(cyc[0])
+    X = plain(H.term(cyc[0].args[0], n))
+    def is_machine(t):
+        # the machine given, or the working copy made of it
+        return t == MACH or (t[0] == "call" and t[1] == ("attr", MACH,
+                                                         "copy"))
+    ok = None
+    if is_machine(X):
+        ok = True
+    elif X == ORDER:
+        ok = False
+    elif X[0] in ("genexp", "listcomp") and len(X[2]) == 1:
+        it_, conds_ = X[2][0]
+        if it_ == ORDER and X[1] == ("elem", ORDER):
+            ok = any(c_[:3] == ("cmp", "In", ("elem", ORDER)) and
+                     is_machine(c_[3]) for c_ in conds_)
+    if ok is None:
+        raise AnalysisError("sequential.place: what the chip iterator "
+                            "ranges over is not read in this form")
+    rep.check(ok, "C02-R1", qual(fn), "a caller-supplied chip order is "
+              "filtered to the machine's own (working) chips before chips "
+              "are tried", construct="chip order filtered", node=cyc[0],
+              fail="the chips of a caller-supplied chip_order are tried as "
+                   "they come (%s): a dead or non-existent chip in the "
+                   "order makes machine[chip] raise IndexError instead of "
+                   "being skipped" % show(X)[:60])
+
+
 def _owner_fn(node):
     p = getattr(node, "_parent", None)
     while p is not None and not isinstance(p, (ast.FunctionDef,
@@ -1199,6 +1243,7 @@ def r7_link(program, rep):
 
 def check(program, rep):
     rep.guard("C02-R1", r1_commits, program, rep)
+    rep.guard("C02-R1", r1_chip_order, program, rep)
     rep.guard("C02-R2", r2_kernel, program, rep)
     rep.guard("C02-R3", r3_dispatch, program, rep)
     rep.guard("C02-R4", r4_pairing, program, rep)
